@@ -2,6 +2,7 @@
 # usage: seed_run.sh <patch.diff> <Cxx>... : apply a seeded change to /repo, run the quick checks, undo it
 patch=$1; shift
 cd /verif
-trap 'git -C /repo checkout -- .' EXIT INT TERM
+trap 'git -C /repo checkout -- .' EXIT
+trap 'git -C /repo checkout -- .; exit 130' INT TERM
 git -C /repo apply $patch || exit 2
 for p in "$@"; do timeout 900 ./check.py $p --tier quick --skip-proofs 2>&1 | grep -E "VIOLATION|KNOWN|done" ; done
